@@ -117,3 +117,88 @@ func coqFloat(f float64) string {
 	}
 	return s + "%float"
 }
+
+// coqValue renders a Go value produced or consumed by genql as a Coq [value] term.
+// Objects are emitted sorted by key. Anything that is not JSON-like is rendered as a
+// distinguished leak object that no model value equals.
+func coqValue(v any) string {
+	switch t := v.(type) {
+	case nil:
+		return "VNull"
+	case bool:
+		return "(VBool " + coqBool(t) + ")"
+	case float64:
+		return "(VNum " + coqFloat(t) + ")"
+	case string:
+		return "(VStr " + coqStr(t) + ")"
+	case []any:
+		items := make([]string, len(t))
+		for i, x := range t {
+			items[i] = coqValue(x)
+		}
+		return "(VArr " + coqList(items) + ")"
+	case map[string]any:
+		keys := make([]string, 0, len(t))
+		for k := range t {
+			keys = append(keys, k)
+		}
+		sortStrings(keys)
+		items := make([]string, len(keys))
+		for i, k := range keys {
+			items[i] = "(" + coqStr(k) + ", " + coqValue(t[k]) + ")"
+		}
+		return "(VObj " + coqList(items) + ")"
+	default:
+		return "(VObj [(\"<<leak>>\"%string, VStr " + coqStr(fmt.Sprintf("%T", v)) + ")])"
+	}
+}
+
+func sortStrings(s []string) {
+	for i := 1; i < len(s); i++ {
+		for j := i; j > 0 && s[j] < s[j-1]; j-- {
+			s[j], s[j-1] = s[j-1], s[j]
+		}
+	}
+}
+
+// isPlain reports whether v is built from JSON-like Go types only.
+func isPlain(v any) bool {
+	switch t := v.(type) {
+	case nil, bool, float64, string:
+		return true
+	case []any:
+		for _, x := range t {
+			if !isPlain(x) {
+				return false
+			}
+		}
+		return true
+	case map[string]any:
+		for _, x := range t {
+			if !isPlain(x) {
+				return false
+			}
+		}
+		return true
+	}
+	return false
+}
+
+// deepCopy copies a JSON-like value.
+func deepCopy(v any) any {
+	switch t := v.(type) {
+	case []any:
+		out := make([]any, len(t))
+		for i, x := range t {
+			out[i] = deepCopy(x)
+		}
+		return out
+	case map[string]any:
+		out := make(map[string]any, len(t))
+		for k, x := range t {
+			out[k] = deepCopy(x)
+		}
+		return out
+	}
+	return v
+}
